@@ -3,9 +3,13 @@ CONSTANTS
   Mode = 2
   MaxLen = 0
   MaxLenB = 0
+  MaxLenFam = 0
+  TopCombos = 8
   Level = 2
   SimMinLen = 6
   SimMaxLen = 200
+  Part1 = 0
+  Part2 = 0
 INIT Init
 NEXT Next
 INVARIANT Inv_MddRange
